@@ -456,6 +456,31 @@ def job_akima_allN(seed):
     return obs
 
 
+def job_deriv_allN(seed):
+    """CalculateDerivative(r) == d/dr Calculate(r) on an arbitrary interval of a grid of arbitrary size, for the cubic, Akima and linear splines (forward-mode AD through
+    the real Calculate; the knot, value and coefficient vectors have symbolic length)"""
+    rvc.reset()
+    obs = []
+    isym, nsym = sp.Symbol('i', integer=True, nonnegative=True), sp.Symbol('N', integer=True, positive=True)
+    r = sp.Symbol('r', real=True)
+    for cls, rel, members in (('CubicSpline', 'tools/src/libtools/cubicspline.cc', ('r_', 'f_', 'f2_')), ('AkimaSpline', 'tools/src/libtools/akimaspline.cc', ('r_', 'p0', 'p1', 'p2', 'p3')),
+                              ('LinSpline', 'tools/src/libtools/linspline.cc', ('r_', 'a', 'b'))):
+        fns = rvc.functions(rvc.ast(rel, cls))
+        if 'Calculate' not in fns or 'CalculateDerivative' not in fns:
+            raise core.Undecided('front end: %s::Calculate / CalculateDerivative not found' % cls)
+        this = {m: FunVec(m.strip('_'), isym, nsym) for m in members}
+        this['boundaries_'] = 0
+        def run(name, arg):
+            exs = Exec({}, {'enum': lambda nm: ENUM[nm], 'getInterval': lambda o_, rv: SInt(isym)}, fns, this)
+            return D.lift(exs.call_fn(exs.pick_method(name, 1), [arg], this))
+        val = run('Calculate', D(r, 1))
+        der = run('CalculateDerivative', D(r))
+        o = rvc.identity('C12.%s.allN/deriv' % cls, '%s::CalculateDerivative' % cls, 'CalculateDerivative(r) == d/dr Calculate(r) on every interval of every grid', der.v, val.t, seed)
+        o['functions'] = fn_meta(fns, cls, ['Calculate', 'CalculateDerivative'], rel)
+        obs.append(o)
+    return obs
+
+
 def replay_periodic(obs):
     bad = [o for o in obs if o['status'] == core.REFUTED]
     if not bad:
@@ -920,7 +945,7 @@ def jobs_rvc(tier, seed):
 
 
 def run(tier, seed, only=None):
-    jobs = jobs_rvc(tier, seed) + [(job_cubic_interpolate_allN, (seed, 0)), (job_cubic_interpolate_allN, (seed, 1)), (job_cubic_fitbc_allN, (seed, 0)), (job_cubic_fitbc_allN, (seed, 1)), (job_akima_allN, (seed,))] + [(job_getinterval, ('unbounded',)), (job_getinterval, ('twin',))] + [(job_getinterval_real, (k, seed)) for k in ((3, 4) if tier == 'quick' else (3, 4, 5, 6))] + [(job_grid, ('spline', seed)), (job_grid, ('table', seed))]
+    jobs = jobs_rvc(tier, seed) + [(job_cubic_interpolate_allN, (seed, 0)), (job_cubic_interpolate_allN, (seed, 1)), (job_cubic_fitbc_allN, (seed, 0)), (job_cubic_fitbc_allN, (seed, 1)), (job_akima_allN, (seed,)), (job_deriv_allN, (seed,))] + [(job_getinterval, ('unbounded',)), (job_getinterval, ('twin',))] + [(job_getinterval_real, (k, seed)) for k in ((3, 4) if tier == 'quick' else (3, 4, 5, 6))] + [(job_grid, ('spline', seed)), (job_grid, ('table', seed))]
     if only:
         jobs = [j for j in jobs if re.search(only, j[0].__name__ + str(j[1]))]
     obs = core.pmap(jobs)
